@@ -158,6 +158,9 @@ def check_recogniser(label, pattern, spec_variants, shape, timeout_ms, expect_gr
             o.reason = f"pattern has {len(flat)} items, spec has {len(parts)} parts: capture obligations cannot be bound"
             obs.append(o)
             continue
+        # how the text AFTER the last capturing item is split among the remaining items cannot
+        # change any captured group (priority is leftmost): no decomposition obligation there
+        last_cap = max([j for j, ((_, g_, _), (_, sg_)) in enumerate(zip(flat, parts)) if g_ or sg_] or [-1])
         for j, ((kind, g, its), (part, sg)) in enumerate(zip(flat, parts)):
             if kind == "optskip":
                 # intended: optional group not taken.  A taken optional is preferred: it must be impossible.
@@ -179,7 +182,7 @@ def check_recogniser(label, pattern, spec_variants, shape, timeout_ms, expect_gr
                 o.model = {"part": w}
                 o.reason = "z3: sat"
             obs.append(o)
-            if kind not in ("lazy", "greedy"):
+            if kind not in ("lazy", "greedy") or j > last_cap:
                 continue
             pre = concat([q for q, _ in parts[:j]])
             post = concat([q for q, _ in parts[j + 1:]] + [p.end()])
